@@ -206,3 +206,24 @@ MANIFEST_TEXT["C09"] = {
              "syntax errors; re-parsing (immediately and at the end of the session) must give identical results."),
     "note": "Trusted: CPython, z3, the 60-line tree evaluator in pvm/checks/c09.py; numbers restricted to dyadic rationals.",
 }
+
+META["C12"] = {
+    "level": "exploration",
+    "rule": ("cases = (contract over <=5 variables, objective with <=3 small-integer coefficients written as a string "
+             "in several spellings, direction) and get_variable_bounds queries; satisfiable, unsatisfiable (built "
+             "without simplification) and half-bounded contracts, objectives over unconstrained variables, plus a "
+             "fixed core of strips on which the LP solver's presolve misreports. Truth = exact rational LP (z3 "
+             "Optimize): infeasible with margin -> ValueError, unbounded -> None, else value within 1e-6 relative. "
+             "Non-trivial = the truth is not in the thin-infeasibility band; distinct = case digests."),
+    "required": ["events:optimize", "events:get_variable_bounds", "truth:finite", "truth:unbounded",
+                 "truth:infeasible", "core_cases"],
+    "assumptions": [TB, "systems that are infeasible but become feasible when relaxed by 1e-3 are not judged"],
+    "soft_s": {"quick": 200, "thorough": 3000},
+}
+MANIFEST_TEXT["C12"] = {
+    "technique": RM + "optimize / get_variable_bounds executed on generated contracts, linprog boundary recorded, result compared with an exact rational LP optimum (z3 Optimize)",
+    "text": ("Exploration: every optimisation answer (value / None / ValueError) of the real code is compared with the "
+             "exact LP classification and optimum over Q; the solver status seen at the linprog boundary names the "
+             "mechanism of a wrong answer."),
+    "note": "Trusted: CPython, z3 Optimize (cross-checked by a feasibility query), pvm/exact.py.",
+}
